@@ -322,6 +322,40 @@ def gen_value(field, rng):
     return s
 
 
+WS_KINDS = {'nl': '\n', 'tab': '\t', 'space': ' ', 'cr': '\r', 'nbsp': '\xa0', 'mixed': ' \n\t\r\xa0'}
+WS_PLACES = ('trail', 'lead', 'both')
+
+
+def ws_padded(core, total, ws, place):
+    """core padded with white space (ws cycled) to exactly `total` characters: trailing, leading or on both sides"""
+    k = max(total - len(core), 0)
+    pad = (ws * (k // len(ws) + 1))[:k]
+    if place == 'trail':
+        return core + pad
+    if place == 'lead':
+        return pad + core
+    return pad[:k // 2] + core + pad[k // 2:]
+
+
+def ws_probe(core, limit, rng, far=4):
+    """a random white-space padded probe around a size limit (limit-1, limit, limit+1, far beyond)"""
+    total = rng.choice([limit - 1, limit, limit + 1, limit + 2, far * limit, limit + rng.randrange(3, 2000)])
+    return ws_padded(core, total, rng.choice(list(WS_KINDS.values())), rng.choice(WS_PLACES))
+
+
+def ws_corpus(core, limit, lengths=None):
+    """deterministic sweep: every white-space kind x every length, placements cycled (+ all placements for the newline)"""
+    out = []
+    i = 0
+    for name, ws in WS_KINDS.items():
+        for total in (lengths or (limit - 1, limit, limit + 1, 3 * limit)):
+            places = WS_PLACES if name == 'nl' else (WS_PLACES[i % 3],)
+            for pl in places:
+                out.append(ws_padded(core, total, ws, pl))
+            i += 1
+    return out
+
+
 def shrink_string(s, still_fails):
     """greedy delta-debugging on one string"""
     changed = True
@@ -767,11 +801,18 @@ class Misc(Stream):
                 out.append({'kind': k, 'args': args, 'tuple': rng.random() < 0.3})
             elif k == 'name':
                 cls = rng.choice(list(NAME_DOC))
-                v = gen_name(cls, rng) if rng.random() < 0.95 else rng.choice([None, 5])
+                r_ = rng.random()
+                v = ws_probe('ab', 255, rng, far=2) if r_ < 0.1 else (gen_name(cls, rng) if r_ < 0.95 else rng.choice([None, 5]))
                 out.append({'kind': 'name', 'cls': cls, 'v': v})
             elif k == 'boot':
                 n_ = rng.choice([0, 1, 100, 1022, 1023, 1024, 1025, 2000])
-                v = ('#!/bin/bash\n' + 'x' * 2000)[:n_] if rng.random() < 0.9 else rng.choice([None, 5, ['a']])
+                r_ = rng.random()
+                if r_ < 0.35:
+                    v = ws_probe(rng.choice(['echo hi', '#!/bin/bash\nexit 0', 'x' * 1000, '']), BOOT_LIMIT, rng)
+                elif r_ < 0.9:
+                    v = ('#!/bin/bash\n' + 'x' * 2000)[:n_]
+                else:
+                    v = rng.choice([None, 5, ['a']])
                 out.append({'kind': 'boot', 'v': v})
             elif k == 'jd_str':
                 cls = rng.choice(list(JD_DOC))
@@ -792,6 +833,8 @@ class Misc(Stream):
 
     def tagv(self, rng):
         r = rng.random()
+        if r < 0.05:
+            return ws_probe('ab', 255, rng, far=2)
         if r < 0.12:        # pieces that are each a valid tag, joined by ONE separator character
             return wordish(rng, rng.choice([1, 3, 8]), '-') + rng.choice([' ', ' ', ' ', ',', '\t', '.', ';', '|', '\n']) + wordish(rng, rng.choice([1, 3]), '-')
         return gen_tag(rng) if r < 0.95 else rng.choice([None, 5, 1.5])
@@ -804,8 +847,8 @@ class Misc(Stream):
             return '"' + 'a' * (ln - 2) + '"'
         if r < 0.7:
             return '{"k": [1, 2.5, null, true, "é"]}'
-        if r < 0.8:
-            return ' ' * max(ln - 2, 0) + '{}'
+        if r < 0.85:     # white space around a small JSON value, padded to the probed length
+            return ws_padded(rng.choice(['{}', '[1]', '"a"']), ln, rng.choice(list(WS_KINDS.values())), rng.choice(WS_PLACES))
         return rng.choice(['', '{', '{"a": }', 'nul', "{'a': 1}", '[1,]', 'NaN', '"a\nb"', '\n', '{}x'])[:max(ln, 0) or None]
 
     def json_obj(self, rng, ln):
@@ -841,6 +884,21 @@ class Misc(Stream):
             out.append({'kind': 'tags_json', 'args': [['ok', t]]})
         for ln in (1023, 1024):
             out.append({'kind': 'boot', 'v': 'x' * ln})
+        for v in ws_corpus('echo hi', BOOT_LIMIT, (1023, 1024, 1025, 2100)):      # white-space padded scripts
+            out.append({'kind': 'boot', 'v': v})
+        for ln in (1023, 1024, 1025):
+            out.append({'kind': 'boot', 'v': ws_padded('x' * 1000, ln, '\n', 'trail')})
+        out.append({'kind': 'boot', 'v': 'x' * 1023 + '\n'})
+        for cls, mx in JD_DOC.items():
+            for wsn in ('nl', 'space', 'nbsp', 'mixed'):
+                for i_, ln in enumerate((mx, mx + 1)):
+                    out.append({'kind': 'jd_str', 'cls': cls, 'v': ws_padded('{}', ln, WS_KINDS[wsn], WS_PLACES[(i_ + len(wsn)) % 3])})
+            out.append({'kind': 'jd_str', 'cls': cls, 'v': ws_padded('{}', mx + 600, '\n', 'trail')})
+        for v in ws_corpus('ab', 255, (255, 256)):
+            out.append({'kind': 'tags', 'args': [[v]]})
+            out.append({'kind': 'name', 'cls': 'ComponentSliver', 'v': v})
+        out.append({'kind': 'name', 'cls': 'NodeSliver', 'v': ws_padded('ab', 255, ' ', 'trail')})
+        out.append({'kind': 'name', 'cls': 'InterfaceSliver', 'v': ws_padded('ab', 256, ' ', 'both')})
         for cls, mx in JD_DOC.items():
             for ln in (mx, mx + 1):
                 out.append({'kind': 'jd_str', 'cls': cls, 'v': '"' + 'a' * (ln - 2) + '"'})
@@ -1188,7 +1246,8 @@ class Topo(Stream):
                             'how': rng.choice(['attr', 'set_property', 'set_properties'])})
             elif k == 'boot':
                 n_ = rng.choice([1, 100, 1022, 1023, 1024, 1025])
-                out.append({'kind': 'boot', 'v': ('#!/bin/bash\n' + 'x' * 2000)[:n_], 'how': rng.choice(['attr', 'set_properties'])})
+                v = ws_probe(rng.choice(['echo hi', 'x' * 1000]), BOOT_LIMIT, rng) if rng.random() < 0.4 else ('#!/bin/bash\n' + 'x' * 2000)[:n_]
+                out.append({'kind': 'boot', 'v': v, 'how': rng.choice(['attr', 'set_properties', 'set_property', 'ctor_kw'])})
             elif k == 'tags':
                 out.append({'kind': 'tags', 'args': [gen_tag(rng) for _ in range(rng.choice([1, 2, 3]))]})
             else:
@@ -1215,6 +1274,8 @@ class Topo(Stream):
                 out.append({'kind': 'rename', 'cls': cls, 'v': v})
             for p in ASCII_NON_ALNUM:           # every ASCII punctuation / control character inside a name, per class
                 out.append({'kind': 'set' if ord(p) % 2 else 'rename', 'cls': cls, 'v': 'ab' + p + 'cd'})
+        for i_, v in enumerate(ws_corpus('echo hi', BOOT_LIMIT, (1023, 1024, 2100))):
+            out.append({'kind': 'boot', 'v': v, 'how': ('attr', 'set_properties', 'set_property', 'ctor_kw')[i_ % 4]})
         out.append({'kind': 'update_labels', 'base': [['vlan', '5']], 'kws': [['vlan', '6\n']]})
         out.append({'kind': 'update_labels', 'base': [], 'kws': [['vlan', ['6', '7']]]})
         for prop, tgt in JD_PROP.items():     # a blob of every kind assigned to every blob-valued element property
@@ -1284,11 +1345,17 @@ class Topo(Stream):
                 after = labels_fields_of(n.labels) if n.labels is not None else []
                 return {'err_or_none': err, 'before': before, 'after': after}
             if k == 'boot':
+                x = n
                 if case['how'] == 'attr':
                     n.boot_script = case['v']
+                elif case['how'] == 'set_property':
+                    n.set_property('boot_script', case['v'])
+                elif case['how'] == 'ctor_kw':
+                    x = t.add_node(name='ctor-kw-node', site='S1', boot_script=case['v'])
                 else:
                     n.set_properties(boot_script=case['v'])
-                return {'ok': n.boot_script}
+                x.get_sliver()
+                return {'ok': x.boot_script}
             if k == 'tags':
                 from fim.slivers.tags import Tags
                 n.set_properties(tags=Tags(*case['args']))
